@@ -17,6 +17,9 @@ theorem unify_idem : ∀ a : Val, a.wf = true → unify a a = a
   | .struct xs c, h => by
     simp only [Val.wf, Bool.and_eq_true, Bool.not_eq_true'] at h
     simp [unify_struct_struct, mergeSlots_idem xs c h.1.1, normS, h.2]
+  | .list xs, h => by
+    simp only [Val.wf, Bool.and_eq_true, Bool.not_eq_true'] at h
+    simp [unify_list_list, zipU_idem xs h.1, normL, h.2]
 termination_by structural a => a
 theorem mergeSlots_idem : ∀ (xs : Slots) (c : Bool), xs.wf = true → mergeSlots xs c xs c = xs
   | .nil, c, _ => by simp [mergeSlots, closeBy]
@@ -30,6 +33,12 @@ theorem mergeSlot_idem : ∀ (x : Slot) (c : Bool), x.wf = true → mergeSlot x 
     simp only [Slot.wf] at h
     simp [mergeSlot, unify_idem v h, ArcTy.min_idem]
 termination_by structural x => x
+theorem zipU_idem : ∀ (xs : Vals), xs.wf = true → zipU xs xs = some xs
+  | .nil, _ => by simp [zipU]
+  | .cons x xs, h => by
+    simp only [Vals.wf, Bool.and_eq_true] at h
+    simp [zipU, zipU_idem xs h.2, unify_idem x h.1]
+termination_by structural xs => xs
 end
 
 /-! ### `unify` preserves normal forms -/
@@ -80,6 +89,9 @@ theorem wf_scMeet (s t : Sc) : (scMeet s t).wf = true := by
   cases h : Sc.meet s t <;> simp [Val.wf]
   exact Sc.meet_wf s t _ h
 
+theorem wf_normL (vs : Vals) (h : vs.wf = true) : (normL vs).wf = true := by
+  unfold normL; split <;> simp_all [Val.wf]
+
 mutual
 theorem unify_wf : ∀ a b : Val, a.wf = true → b.wf = true → (unify a b).wf = true
   | .bot, _, _, _ => by simp [Val.wf]
@@ -88,6 +100,7 @@ theorem unify_wf : ∀ a b : Val, a.wf = true → b.wf = true → (unify a b).wf
   | .sc s, .top, ha, _ => by simpa using ha
   | .sc s, .sc t, _, _ => by simpa using wf_scMeet s t
   | .sc s, .struct _ _, _, _ => by simp [Val.wf]
+  | .sc s, .list _, _, _ => by simp [Val.wf]
   | .struct _ _, .bot, _, _ => by simp [Val.wf]
   | .struct xs c, .top, ha, _ => by simpa using ha
   | .struct _ _, .sc _, _, _ => by simp [Val.wf]
@@ -96,6 +109,17 @@ theorem unify_wf : ∀ a b : Val, a.wf = true → b.wf = true → (unify a b).wf
     rw [unify_struct_struct]
     exact wf_normS _ _ (mergeSlots_wf xs c ys d ha.1.1 hb.1.1)
       (noTrail_mergeSlots xs c ys d ha.1.2 hb.1.2)
+  | .struct _ _, .list _, _, _ => by simp [Val.wf]
+  | .list _, .bot, _, _ => by simp [Val.wf]
+  | .list xs, .top, ha, _ => by simpa using ha
+  | .list _, .sc _, _, _ => by simp [Val.wf]
+  | .list _, .struct _ _, _, _ => by simp [Val.wf]
+  | .list xs, .list ys, ha, hb => by
+    simp only [Val.wf, Bool.and_eq_true] at ha hb
+    rw [unify_list_list]
+    cases hz : zipU xs ys with
+    | none => simp [Val.wf]
+    | some r => exact wf_normL r (zipU_wf xs ys r hz ha.1 hb.1)
 termination_by structural a _ _ _ => a
 theorem mergeSlots_wf : ∀ (xs : Slots) (c : Bool) (ys : Slots) (d : Bool),
     xs.wf = true → ys.wf = true → (mergeSlots xs c ys d).wf = true
@@ -113,6 +137,21 @@ theorem mergeSlot_wf : ∀ (x : Slot) (c : Bool) (y : Slot) (d : Bool),
     simp only [Slot.wf, mergeSlot] at hx hy ⊢
     exact unify_wf v w hx hy
 termination_by structural x _ _ _ _ _ => x
+theorem zipU_wf : ∀ (xs ys r : Vals), zipU xs ys = some r → xs.wf = true → ys.wf = true →
+    r.wf = true
+  | .nil, .nil, r, h, _, _ => by simp only [zipU, Option.some.injEq] at h; subst h; rfl
+  | .nil, .cons _ _, r, h, _, _ => by simp [zipU] at h
+  | .cons _ _, .nil, r, h, _, _ => by simp [zipU] at h
+  | .cons x xs, .cons y ys, r, h, hx, hy => by
+    simp only [zipU] at h
+    cases hz : zipU xs ys with
+    | none => simp [hz] at h
+    | some r' =>
+      simp only [hz, Option.some.injEq] at h
+      subst h
+      simp only [Vals.wf, Bool.and_eq_true] at hx hy ⊢
+      exact ⟨unify_wf x y hx.1 hy.1, zipU_wf xs ys r' hz hx.2 hy.2⟩
+termination_by structural xs _ _ _ _ _ => xs
 end
 
 /-! ### evaluation yields normal forms -/
@@ -148,6 +187,7 @@ theorem eval_wf : ∀ e : Expr, (eval e).wf = true
   | .struct .nil => by simp [eval, Val.wf, Slots.wf, Slots.noTrail, Slots.hasRegBot]
   | .struct (.cons d ds) => by simpa [eval] using evalDecls_wf (.cons d ds)
   | .close e => by simpa [eval] using wf_closeV _ (eval_wf e)
+  | .list es => by simpa [eval] using wf_normL _ (evalList_wf es)
 termination_by structural e => e
 theorem evalDecls_wf : ∀ ds : Decls, (evalDecls ds).wf = true
   | .nil => by simp [evalDecls, Val.wf]
@@ -157,6 +197,12 @@ theorem evalDecl_wf : ∀ d : Decl, (evalDecl d).wf = true
   | .field l t e => by simpa [evalDecl] using wf_fieldV l t _ (eval_wf e)
   | .embed e => by simpa [evalDecl] using eval_wf e
 termination_by structural d => d
+theorem evalList_wf : ∀ es : Exprs, (evalList es).wf = true
+  | .nil => rfl
+  | .cons e es => by
+    simp only [evalList, Vals.wf, Bool.and_eq_true]
+    exact ⟨eval_wf e, evalList_wf es⟩
+termination_by structural es => es
 end
 
 end CueVerif.Core
